@@ -544,6 +544,34 @@ func (e *Exec) stub(fn *ssa.Function, full string, args []Value) (Value, bool) {
 		e.ctxs[child.id] = &ctxInfo{parent: pid}
 		e.events = append(e.events, Event{Kind: "ctx.WithCancel", Args: []Value{child}})
 		return TupleV{&IfaceV{t: types.Typ[types.UnsafePointer], v: child}, &FuncV{ext: "cancel", data: child}}, true
+	case "context.WithTimeout", "context.WithDeadline":
+		// a cancellable child that also carries a deadline; the deadline itself is
+		// far away: within the bound it never passes (time is not advanced)
+		e.objSeq++
+		child := &OpaqueV{kind: "ctx", id: e.objSeq, data: args[0]}
+		pid := 0
+		if pi, ok := args[0].(*IfaceV); ok {
+			if po, ok := pi.v.(*OpaqueV); ok {
+				pid = po.id
+			}
+		}
+		e.ctxs[child.id] = &ctxInfo{parent: pid, deadline: true}
+		e.events = append(e.events, Event{Kind: "ctx.WithCancel", Args: []Value{child}})
+		return TupleV{&IfaceV{t: types.Typ[types.UnsafePointer], v: child}, &FuncV{ext: "cancel", data: child}}, true
+	case "time.Until", "time.Since":
+		return e.zero(fn.Signature.Results().At(0).Type()), true
+	case "time.Now":
+		return e.zero(fn.Signature.Results().At(0).Type()), true
+	case "(time.Time).Sub", "(time.Time).Add", "(time.Time).Before", "(time.Time).After", "(time.Time).IsZero":
+		return e.zero(fn.Signature.Results().At(0).Type()), true
+	case "time.AfterFunc", "time.NewTimer":
+		// the timer is armed for a far deadline and does not fire within the bound
+		e.objSeq++
+		e.events = append(e.events, Event{Kind: "timer-armed"})
+		return &PtrV{obj: e.newObj(&OpaqueV{kind: "timer", id: e.objSeq}, "timer")}, true
+	case "(*time.Timer).Stop", "(*time.Timer).Reset":
+		e.events = append(e.events, Event{Kind: "timer-stopped"})
+		return e.st.True, true
 	case "context.Background", "context.TODO":
 		e.objSeq++
 		e.ctxs[e.objSeq] = &ctxInfo{}
@@ -623,6 +651,21 @@ func (e *Exec) extCall(fv *FuncV, args []Value) Value {
 		switch m {
 		case "Done":
 			return &OpaqueV{kind: "donechan", data: op}
+		case "Deadline":
+			has := false
+			for id := op.id; id != 0; {
+				ci := e.ctxs[id]
+				if ci == nil {
+					break
+				}
+				if ci.deadline {
+					has = true
+				}
+				id = ci.parent
+			}
+			return TupleV{e.zero(e.timeType()), e.st.Bool(has)}
+		case "Value":
+			return &IfaceV{}
 		case "Err":
 			e.events = append(e.events, Event{Kind: "ctx.Err", Args: []Value{op}})
 			cause := e.ctxCause(op.id)
@@ -952,4 +995,17 @@ func (e *Exec) fmtString(v Value, minus bool, width, prec int, out []*Term) []*T
 		}
 	}
 	return out
+}
+
+// timeType finds time.Time among the loaded packages (for ctx.Deadline()).
+func (e *Exec) timeType() types.Type {
+	for _, p := range e.prog.AllPackages() {
+		if p.Pkg.Path() == "time" {
+			if t := p.Type("Time"); t != nil {
+				return t.Type()
+			}
+		}
+	}
+	e.unsupported("package time not loaded (ctx.Deadline)")
+	return nil
 }
